@@ -893,7 +893,7 @@ func (c *Ctx) checkStatementSeparation(r *Report) {
 	psT := c.TypeNamed("ast", "PrintState")
 	stmts := c.SSAFn(c.Fn("ast", "Statements.PrettyPrint"))
 	sname := ssaFuncName(stmts)
-	long := c.Fn("ast", "prettyPrintLongForm")
+	long := c.FnOpt("ast", "prettyPrintLongForm") // optional: may have been inlined into Statements.PrettyPrint
 	compact := c.Fn("ast", "prettyPrintCompact")
 	// (a) each mode's separator function writes on every path when i > 0
 	isWrite := func(in ssa.Instruction) bool {
@@ -910,6 +910,11 @@ func (c *Ctx) checkStatementSeparation(r *Report) {
 		return false
 	}
 	for _, sep := range []*types.Func{long, compact} {
+		if sep == nil {
+			r.Abstain("C02.R5", sname, "a separator is written before every statement but the first (long form)", c.Pos(stmts.Pos()),
+				"the long-form separator logic is no longer a function of its own (inlined into Statements.PrettyPrint): the path search of this rule is written for the helper's parameter i and is not re-targeted; the compact form, the previous-statement typestate and the shared idempotence rules still apply")
+			continue
+		}
 		fn := c.SSAFn(sep)
 		// path search from entry to return avoiding writes, with `i > 0` assumed true
 		iParam := fn.Params[len(fn.Params)-1]
@@ -994,7 +999,24 @@ func (c *Ctx) checkStatementSeparation(r *Report) {
 	if prevStore == nil {
 		r.Fail("C02.R5", sname, "the previous statement is recorded", c.Pos(stmts.Pos()), "ps.prev is never set in Statements.PrettyPrint")
 	} else {
-		bad := mustPassBefore(prevStore, func(in ssa.Instruction) bool { return isCallTo(in, long, compact) || isReturn(in) }, func(in ssa.Instruction) bool {
+		bad := mustPassBefore(prevStore, func(in ssa.Instruction) bool {
+			if isCallTo(in, long, compact) || isReturn(in) {
+				return true
+			}
+			// with the long-form helper inlined, the next separator decision is whatever follows the loop header:
+			// going round the loop is enough (the store then follows the print of its own iteration)
+			if long == nil {
+				b := in.Block()
+				if len(b.Instrs) > 0 && b.Instrs[0] == in {
+					for _, p := range b.Preds {
+						if b.Dominates(p) {
+							return true
+						}
+					}
+				}
+			}
+			return false
+		}, func(in ssa.Instruction) bool {
 			call, ok := in.(*ssa.Call)
 			return ok && call.Common().IsInvoke() && call.Common().Method.Name() == "PrettyPrint"
 		})
